@@ -290,8 +290,15 @@ func Generate(t *tape.Tape, p Profile) *App {
 		}
 		if gn[i].kind == KAction {
 			// action node: {LOAD|RELOAD}* MOVE target
+			sinkReloaded := false
 			for _, s := range loaded {
 				if t.Chance(1, 3) {
+					if a.extByName(s).Size == 0 {
+						if sinkReloaded {
+							continue
+						}
+						sinkReloaded = true
+					}
 					code = append(code, Inst{Op: RELOAD, A: s})
 				}
 			}
@@ -324,13 +331,9 @@ func Generate(t *tape.Tape, p Profile) *App {
 			t.End()
 			continue
 		}
-		// RELOAD in prelude
-		for _, s := range loaded {
-			if t.Chance(1, 6) {
-				code = append(code, Inst{Op: RELOAD, A: s})
-			}
-		}
-		// MAPs
+		// choose the mapped set (at most one sink), then RELOADs (RELOAD maps its symbol,
+		// so a sink may only be reloaded when it is the node's mapped sink), then MAPs
+		sinkSym := ""
 		for _, s := range loaded {
 			e := a.extByName(s)
 			if e.Size == 0 {
@@ -338,11 +341,22 @@ func Generate(t *tape.Tape, p Profile) *App {
 					continue
 				}
 				haveSink = true
+				sinkSym = s
 			} else if !t.Chance(3, 4) {
 				continue
 			}
-			code = append(code, Inst{Op: MAP, A: s})
 			mapped = append(mapped, s)
+		}
+		reloadable := func(s string) bool {
+			return a.extByName(s).Size != 0 || s == sinkSym
+		}
+		for _, s := range loaded {
+			if reloadable(s) && t.Chance(1, 6) {
+				code = append(code, Inst{Op: RELOAD, A: s})
+			}
+		}
+		for _, s := range mapped {
+			code = append(code, Inst{Op: MAP, A: s})
 		}
 		// menu
 		if p.Menus && gn[i].kind != KEndAbnormal {
@@ -386,7 +400,7 @@ func Generate(t *tape.Tape, p Profile) *App {
 		case KInput:
 			code = append(code, Inst{Op: HALT})
 			for _, s := range loaded {
-				if t.Chance(1, 2) {
+				if reloadable(s) && t.Chance(1, 2) {
 					code = append(code, Inst{Op: RELOAD, A: s})
 				}
 			}
